@@ -413,7 +413,10 @@ def call_ext(I: Any, name: str, args: List[Term], kwargs: Dict[str, Term], st: A
             return ("builtin", "list")
         return app("type", args)
     if name == "builtins.super":
-        return ("super", ctx.fi.cls if ctx.fi else None, st.env.get("self"))
+        me_ = st.env.get("self")
+        if me_ is None and ctx.fi is not None and ctx.fi.params:
+            me_ = st.env.get(ctx.fi.params[0])       # (cls in a classmethod / __init_subclass__)
+        return ("super", ctx.fi.cls if ctx.fi else None, me_)
     if name == "functools.partial":
         return ("partialobj", args[0], tuple(args[1:]))
     if name == "textwrap.wrap":
@@ -1071,6 +1074,11 @@ def arith(op: str, a: Term, b: Term) -> Term:
             part = T.slice_seq(("seq", "s", a[1]), int(w_) - k_, int(w_)) if op == "mod" else T.slice_seq(("seq", "s", a[1]), 0, int(w_) - k_)
             if not is_top(part):
                 return T.uint_of(part[2])
+    # a remainder / quotient by a bound the value never reaches
+    if op in ("mod", "floordiv") and is_c(b) and isinstance(b[1], int) and not isinstance(b[1], bool) and b[1] > 0 and is_int_term(a) and not is_c(a):
+        ra_ = T.int_range(a)
+        if ra_ is not None and ra_[0] is not None and ra_[1] is not None and 0 <= ra_[0] and ra_[1] < b[1]:
+            return a if op == "mod" else c(0)
     # a left shift of an integer by a constant is a multiplication by a power of two
     if op == "lshift" and is_c(b) and isinstance(b[1], int) and not isinstance(b[1], bool) and 0 <= b[1] <= 64 and is_int_term(a) and not is_c(a):
         return arith("mul", a, c(1 << b[1]))
@@ -1151,8 +1159,34 @@ def arith(op: str, a: Term, b: Term) -> Term:
     return app(op, [a, b])
 
 
+def _merge_uints(l: Lin) -> Lin:
+    """16**(w2+..+wn)*uint(D1) + ... + 16**wn*uint(Dn-1) + uint(Dn), each Di a run of wi hex digits, is the number read
+    from the digits D1 ++ ... ++ Dn."""
+    if l.const != 0 or len(l.coef) < 2:
+        return l
+    parts = []
+    for t_, q in l.coef.items():
+        if not (isinstance(t_, tuple) and t_[:1] == ("uint",) and isinstance(q, int) and q > 0):
+            return l
+        w_ = T.const_width(("seq", "s", t_[1]))
+        if w_ is None:
+            return l
+        parts.append((q, int(w_), t_))
+    parts.sort(key=lambda p_: -p_[0])
+    shift = 0
+    for q, w_, _t in reversed(parts):
+        if q != 16 ** shift:
+            return l
+        shift += w_
+    atoms: Tuple[Any, ...] = ()
+    for _q, _w, t_ in parts:
+        atoms = atoms + tuple(t_[1])
+    return Lin({T.uint_of(T.normalise_atoms(atoms)): 1}, 0)
+
+
 def _recombine(l: Lin) -> Lin:
     """q*k*(x // k) + q*(x % k) is q*x (every integer x, k > 0)."""
+    l = _merge_uints(l)
     for t_, q in list(l.coef.items()):
         if isinstance(t_, tuple) and t_[:2] == ("app", "mod") and len(t_) == 4 and is_c(t_[3]) and isinstance(t_[3][1], int) and t_[3][1] > 0 and isinstance(q, int):
             d_ = ("app", "floordiv", t_[2], t_[3])
@@ -1999,13 +2033,13 @@ def call_method(I: Any, recv: Term, name: str, args: List[Term], kwargs: Dict[st
             raise AnalysisError(f"super() outside a method at {where}")
         mro = ci.mro()
         # dynamic MRO of the instance's class decides the next class
-        inst_cls = st.heap[selfv[1]].cls if selfv[0] == "obj" else None
+        inst_cls = st.heap[selfv[1]].cls if selfv[0] == "obj" else (selfv[1] if selfv[0] == "class" else None)
         dyn = inst_cls.mro() if inst_cls is not None and ci in inst_cls.mro() else mro
         nxt = dyn[dyn.index(ci) + 1:]
         for k in nxt:
             if name in k.methods:
                 return I.call(("bound", selfv, k.methods[name]), args, kwargs, st, ctx, node)
-        if name in ("__init__", "__post_init__"):
+        if name in ("__init__", "__post_init__", "__init_subclass__"):
             return c(None)
         raise AnalysisError(f"super().{name} not found at {where}")
 
